@@ -20,7 +20,8 @@ func visibleCallee(name string) bool {
 		return false
 	}
 	switch name {
-	case "(*sync.Mutex).Lock", "(*sync.Mutex).Unlock", "(*sync.RWMutex).Lock", "(*sync.RWMutex).Unlock", "(*sync.RWMutex).RLock", "(*sync.RWMutex).RUnlock":
+	case "(*sync.Mutex).Lock", "(*sync.Mutex).Unlock", "(*sync.RWMutex).Lock", "(*sync.RWMutex).Unlock", "(*sync.RWMutex).RLock", "(*sync.RWMutex).RUnlock",
+		"(*sync.WaitGroup).Add", "(*sync.WaitGroup).Done", "(*sync.WaitGroup).Wait":
 		return true
 	}
 	return strings.HasSuffix(name, ".verifJoinAll") || strings.HasSuffix(name, ".verifYield")
@@ -175,6 +176,9 @@ func (ex *Exec) canProceed(st *State, th *Thread) bool {
 			case name == "(*sync.Mutex).Lock" || name == "(*sync.RWMutex).Lock" || name == "(*sync.RWMutex).RLock":
 				_, cur := ex.mutexState(st, ex.operand(st, f, x.Call.Args[0]))
 				return cur != nil && cur.Op == OConst && cur.C == 0
+			case name == "(*sync.WaitGroup).Wait":
+				n, _ := st.stub[wgKey(ex.operand(st, f, x.Call.Args[0]))].(*Term)
+				return n == nil || (n.Op == OConst && n.C == 0)
 			case strings.HasSuffix(name, ".verifJoinAll"):
 				for _, o := range st.threads {
 					if o != th && !o.done {
@@ -296,6 +300,29 @@ func (ex *Exec) mutexOp(st *State, th *Thread, f *Frame, name string, args []Val
 		ex.store(st, cell, BVC(cur.S.W, 1))
 	default:
 		ex.store(st, cell, BVC(cur.S.W, 0))
+	}
+	ex.setResult(f, call, isDefer, nil)
+	return nil
+}
+
+func wgKey(v Value) string {
+	p, _ := v.(Ptr)
+	return "wg@" + itoaInt(p.Obj) + pathKey(p.Path)
+}
+
+// waitGroupOp: sync.WaitGroup as a counter kept beside the heap (Wait blocks until it is zero).
+func (ex *Exec) waitGroupOp(st *State, th *Thread, f *Frame, name string, args []Value, call *ssa.Call, isDefer bool) []*State {
+	ex.rep.Stubs["sync.WaitGroup (counter model; Wait is a blocking scheduling point)"] = true
+	k := wgKey(args[0])
+	cur, _ := st.stub[k].(*Term)
+	if cur == nil {
+		cur = BVC(64, 0)
+	}
+	switch name {
+	case "Add":
+		st.stubSet(k, ex.ctx.BVAdd(cur, args[1].(*Term)))
+	case "Done":
+		st.stubSet(k, ex.ctx.BVSub(cur, BVC(64, 1)))
 	}
 	ex.setResult(f, call, isDefer, nil)
 	return nil
